@@ -11,8 +11,8 @@ reg("C15", "SPDE operators, projections and solvers are mutually consistent",
          "entry point vs the harness's own product with the entries of getQ() and vs Lambda P(S) Lambda x evaluated by the harness; S "
          "invariants; symmetry / own dense Cholesky (n <= 200) / x'Qx / CholeskySparse solve + log det; ~40 projected points (strictly "
          "inside, on interior facets, on vertices, on the hull, outside near and far; optional selection and undefined Z; brute-force "
-         "point location by the harness); 1..30 data (inside, on vertices, outside the mesh, in any order) in three magnitude classes, optional masked / undefined samples, optional nugget, "
-         "1 or 2 structures -> PrecisionOpMultiConditional(Cs) rhs / product / solves / quadratic form / log det, SPDEOp(Matrix) "
+         "point location by the harness; a row is required for every point strictly inside and for the border NODES of an unmasked turbo mesh, other points of the hull are only validated when a row exists); 1..30 data (inside, on vertices, outside the mesh, in any order) in three magnitude classes, optional masked / undefined samples, optional nugget, "
+         "1 or 2 structures -> PrecisionOpMultiConditional(Cs) rhs / product (also with one noise variance per datum) / solves / quadratic form / log det, SPDEOp(Matrix) "
          "product, krigingSPDE, krigingSPDENew, logLikelihoodSPDE with useCholesky = 1 and 0 vs an own dense long-double solution of "
          "(Q + A'A/s2) x = A'z/s2 when the system has <= 130 unknowns (quick). 4 % of the cases = krigingSPDENew on a target Db "
          "without Z variable; 3 % = log-likelihood (both modes) of data none of which falls in the mesh, vs its closed form. distinct = distinct (mesh kind, ndim, covariance type, polynomial degree, integer-alpha flag, range "
